@@ -1,12 +1,24 @@
-"""stubgen rewrites the metadata of `Annotated[T, (..)]` as if it were a type: ('a', 1) -> tuple[a, 1]."""
-import os, sys
+"""stubgen prints the metadata of Annotated[T, (..)] as if it were a type: ('unit', 1) becomes tuple[unit, 1].
+
+Exit status 1 = defect present, 0 = absent, 2 = inconclusive (preconditions of the input failed).
+Mechanism keys: structure:parse-only:annotation-changed:param:Annotated, structure:parse-only:annotation-changed:return:Annotated, structure:parse-only:annotation-changed:variable:Annotated, structure:semantic:annotation-changed:param:Annotated, structure:semantic:annotation-changed:return:Annotated, structure:semantic:annotation-changed:variable:Annotated"""
+import os
+import sys
+
 sys.path.insert(0, os.path.dirname(os.path.abspath(__file__)))
 from _c19repro import run
 
-SRC = '''
-from typing import Annotated
+FILES = '''from typing import Annotated
 
-def scale(x: Annotated[int, ('unit', 1)]) -> int:
+LIMIT: Annotated[int, ('unit', 1)] = 3
+
+def scale(x: Annotated[int, ('unit', 1)]) -> Annotated[int, ('unit', 1)]:
     return x
 '''
-run(SRC, "sem", ["structure:semantic:annotation-changed:param:Annotated"], what=__doc__)
+EXPECT = ['structure:parse-only:annotation-changed:param:Annotated',
+ 'structure:parse-only:annotation-changed:return:Annotated',
+ 'structure:parse-only:annotation-changed:variable:Annotated',
+ 'structure:semantic:annotation-changed:param:Annotated',
+ 'structure:semantic:annotation-changed:return:Annotated',
+ 'structure:semantic:annotation-changed:variable:Annotated']
+run(FILES, ['po', 'sem'], EXPECT, what=__doc__.splitlines()[0])
